@@ -26,3 +26,8 @@ def check(ctx):
     ctx.run(rule_finally_clean, "C17.K3", [rr.run, rr.apply, rr.stale, rr.run_physical, r.engine, r.pool])
     ctx.run(E.rule_first_error, "C17.K3", r)
     ctx.run(E.rule_startup_interrupt, "C17.K6", r)
+    # the observer's __exit__ joins the display's update thread: that thread must end once the done event is set, also when the
+    # display's sink keeps failing (evaluated, see c20.rule_update_thread)
+    from .c20 import rule_update_thread, update_thread_of
+    ctx.run(lambda c_: rule_update_thread(c_, "C17.K5", *update_thread_of(ctx.model), termination_only=True))
+    ctx.run(lambda c_: rule_update_thread(c_, "C17.K5", *update_thread_of(ctx.model), failing_output=True))
